@@ -214,10 +214,14 @@ def run(ctx):
     for k in range(0, len(seqs) - nlong, 3):
         keep_flags[k] = True
     with cf.ThreadPoolExecutor(max_workers=WORKERS) as ex:
-        outs = list(ex.map(lambda sk: run_jobs(texts, wants, [{"kind": "history", "seq": sk[0], "keep": sk[1]}])[0], list(zip(seqs, keep_flags))))
+        # (every fourth history: each earlier chart is EDITED in place by its caller - an event appended to every list, the list
+        #  reversed - after it was observed; half of those histories also keep the charts alive)
+        edit_flags = [k % 4 == 1 for k in range(len(seqs))]
+        outs = list(ex.map(lambda sk: run_jobs(texts, wants, [{"kind": "history", "seq": sk[0], "keep": sk[1], "edit": sk[2]}])[0],
+                           list(zip(seqs, keep_flags, edit_flags))))
     hist_outs = outs
     for k, (s, o) in enumerate(zip(seqs, outs)):
-        add(f"h{k}", "history", o, {"history": s, "keep": keep_flags[k]})
+        add(f"h{k}", "history", o, {"history": s, "keep": keep_flags[k], "edit": edit_flags[k]})
     ctx.sample({"origin": "history", "seq": seqs[len(seqs) // 3], "parses": outs[len(seqs) // 3]["parses"]})
     # ---- schedules generated by TLC (Process.tla interleavings), replayed by the deterministic scheduler
     model_to_real = {"A": "A", "B": "B", "X": "X"}
@@ -343,7 +347,7 @@ def replay(ctx, obj):
     names = list(texts)
     want = {n: run_jobs(texts, wants, [{"kind": "history", "seq": [n]}], hashseed="0")[0]["parses"][0]["got"] for n in names}
     if obj["kind"] == "history":
-        job = {"kind": "history", "seq": d["history"], "keep": d.get("keep", False)}
+        job = {"kind": "history", "seq": d["history"], "keep": d.get("keep", False), "edit": d.get("edit", False)}
     elif obj["kind"] == "stress":
         job = {"kind": "stress", "threads": d["threads"], "switch": 1e-6}
     else:
